@@ -27,8 +27,8 @@ EXTRA = ["AngularRate/closed", "AngularRate/series", "OLEQ", "FLAE",
          # batch-only filters and estimators: no streamed twin, but runs must still be repeatable and independent of what ran before
          "Complementary/IMU", "Complementary/MARG", "FKF", "Tilt", "Tilt/acc-only", "SAAM", "FAMC", "FQA", "QUEST", "Davenport", "TRIAD", "AQUA/static"]
 ROUTES = ["batch-vs-stream:" + n for n in STREAMERS + ["AngularRate/closed", "AngularRate/series"]] + \
-         ["repeat:" + n for n in STREAMERS + EXTRA] + ["interleave", "fresh-process", "shared-state"]
-REGIONS = {"bs:default-params": 60, "bs:explicit-params": 60, "interleave:2": 10, "interleave:3-4": 10, "process": 2}
+         ["repeat:" + n for n in STREAMERS + EXTRA] + ["interleave", "fresh-process", "shared-state", "threads"]
+REGIONS = {"bs:default-params": 60, "bs:explicit-params": 60, "interleave:2": 10, "interleave:3-4": 10, "process": 2, "threads": 8}
 PROBES = [("ahrs.filters.madgwick", "Madgwick.updateIMU"), ("ahrs.filters.madgwick", "Madgwick.updateMARG"),
           ("ahrs.filters.mahony", "Mahony.updateIMU"), ("ahrs.filters.mahony", "Mahony.updateMARG"), ("ahrs.filters.ekf", "EKF.update"),
           ("ahrs.filters.ukf", "UKF.update"), ("ahrs.filters.aqua", "AQUA.updateIMU"), ("ahrs.filters.aqua", "AQUA.updateMARG"),
@@ -118,6 +118,16 @@ def generate(rng, tier, shard, nshards):
         rng.shuffle(sched)
         yield Case("interleave", "interleave:2" if kinst == 2 else "interleave:3-4", names=names, kws=[params_for(rng, nm, bool(rng.integers(2))) for nm in names],
                    G=[h[0] for h in hs], A=[h[1] for h in hs], M=[h[2] for h in hs], schedule=sched.astype(int), seed=int(rng.integers(2**31)))
+    # concurrent threads: 2-3 instances of ONE class (what instances of a class could share: class attributes, module-level scratch, default
+    # arguments), each with its own history, each in its own thread with forced thread switches at statement boundaries inside the library
+    for i, name in enumerate(STREAMERS):
+        if i % nshards != shard:
+            continue
+        for rep in range(1 if tier == "quick" else gens.reps(2, tier)):
+            kinst = 2 + (i + rep) % 2
+            hs = [history(rng, int(rng.integers(6, 16))) for _ in range(kinst)]
+            yield Case("threads", "threads", names=[name] * kinst, kws=[params_for(rng, name, bool(rng.integers(2))) for _ in range(kinst)],
+                       G=[h[0] for h in hs], A=[h[1] for h in hs], M=[h[2] for h in hs], seed=int(rng.integers(2**31)))
     for i in range(1 if tier == "quick" else 2):
         name = STREAMERS[(shard * 3 + i) % len(STREAMERS)]
         g, a, m = history(rng, 20)
@@ -347,6 +357,94 @@ def check_interleave(case, ctx):
     shared_state_clause(ctx, before, snapshot(), rng_allowed=any(n.startswith("ROLEQ") for n in names))
 
 
+_thread_stats = {"runs": 0, "alternations": 0, "yields": 0}
+
+
+def check_threads(case, ctx):
+    """Each instance in its own thread.  A trace function installed in every worker yields the interpreter (time.sleep(0)) at a seeded random
+    third of the statement boundaries executed inside the tree under test, so thread switches land inside the update methods."""
+    import sys as _sys
+    import threading
+    import time
+    p = case.p
+    names, kws, Gs, As, Ms = p["names"], [dict(k) for k in p["kws"]], p["G"], p["A"], p["M"]
+    reg = filt.registry()
+    k = len(names)
+    root = os.path.realpath(os.environ.get("AHRS_TREE", "/repo"))
+
+    def isolated(j):
+        B = run_batch(names[j], kws[j], Gs[j], As[j], Ms[j])
+        return B[0], run_stream(names[j], kws[j], B[0], Gs[j], As[j], Ms[j])
+    iso = [call(isolated, j) for j in range(k)]
+    if any((not o.ok) for o in iso):
+        if all((o.ok or (names[j] == "UKF" and o.exc_name == "LinAlgError")) for j, o in enumerate(iso)):
+            ctx.note("an isolated UKF run raised LinAlgError (C03): threads case skipped")
+            return
+        for j, o in enumerate(iso):
+            ctx.returned(o, clause="isolated run of " + names[j], route="threads")
+        return
+
+    def threaded(rep):
+        insts = [reg[names[j]].new(**kws[j]) for j in range(k)]
+        Q = [[np.array(iso[j].value[0], float)] for j in range(k)]
+        order, errs, yields = [], [], [0] * k
+        gate = threading.Barrier(k)
+
+        def work(j):
+            r_ = np.random.Generator(np.random.PCG64(int(p["seed"]) + 1000 * rep + j))
+            coins = r_.random(4096) < 0.33
+            n_ = [0]
+
+            def line_tracer(frame, event, arg):
+                if event == "line":
+                    n_[0] += 1
+                    if coins[n_[0] % 4096]:
+                        yields[j] += 1
+                        time.sleep(0)
+                return line_tracer
+
+            def tracer(frame, event, arg):
+                return line_tracer if frame.f_code.co_filename.startswith(root) else None
+            try:
+                cfg = reg[names[j]]
+                gate.wait()
+                _sys.settrace(tracer)
+                for t in range(1, len(Gs[j])):
+                    order.append(j)
+                    Q[j].append(np.array(cfg.step(insts[j], Q[j][-1], Gs[j][t].copy(), As[j][t].copy(), Ms[j][t].copy()), float))
+            except Exception as e:      # noqa: BLE001
+                errs.append("%s: %s" % (type(e).__name__, str(e)[:80]))
+            finally:
+                _sys.settrace(None)
+        old_ = _sys.getswitchinterval()
+        _sys.setswitchinterval(1e-6)
+        try:
+            ths = [threading.Thread(target=work, args=(j,)) for j in range(k)]
+            for th in ths:
+                th.start()
+            for th in ths:
+                th.join(300)
+        finally:
+            _sys.setswitchinterval(old_)
+        return [np.array(x) for x in Q], sum(1 for x, y in zip(order[:-1], order[1:]) if x != y), errs, sum(yields)
+    for rep in range(3):
+        out = call(threaded, rep)
+        if not ctx.returned(out, clause="threaded run", route="threads"):
+            continue
+        Qt, alternations, errs, ny = out.value
+        _thread_stats["runs"] += 1
+        _thread_stats["alternations"] += alternations
+        _thread_stats["yields"] += ny
+        if errs:
+            ctx.ok("an instance run in its own thread raises nothing its isolated run did not", False, {"errors": errs[:3], "filters": names}, route="threads")
+            continue
+        for j in range(k):
+            same = Qt[j].shape == iso[j].value[1].shape and np.array_equal(Qt[j], iso[j].value[1], equal_nan=True)
+            ctx.ok("each instance's outputs equal its isolated run when instances of the class run in concurrent threads", same,
+                   {"instance": j, "filter": names[j], "instances": k, "yields_injected": ny, "alternations_between_updates": alternations,
+                    "max_diff": float(np.nanmax(np.abs(Qt[j] - iso[j].value[1]))) if Qt[j].shape == iso[j].value[1].shape else None}, route="threads")
+
+
 CHILD = r"""
 import sys, json, numpy as np
 sys.path.insert(0, sys.argv[1]); sys.path.insert(1, sys.argv[2])
@@ -389,4 +487,9 @@ def check_process(case, ctx):
 
 
 def check(case, ctx):
-    {"bs": check_bs, "interleave": check_interleave, "process": check_process}[case.route](case, ctx)
+    {"bs": check_bs, "interleave": check_interleave, "process": check_process, "threads": check_threads}[case.route](case, ctx)
+
+
+def extra_evidence():
+    return {"threaded_runs": _thread_stats["runs"], "thread_alternations_between_updates_observed": _thread_stats["alternations"],
+            "thread_yields_injected_inside_the_library": _thread_stats["yields"]}
